@@ -31,6 +31,12 @@ Terms ==
     [] Shape = "nest" -> {LT(e) : e \in SeqUpTo(LitH \cup {IsT(1)} \cup SmallLT, 2)}
                          \cup {HT(v) : v \in SmallL} \cup {SL(v) : v \in SmallL}
                          \cup {LT(<<x, y>>) : x \in {SL(L(<<I(0)>>)), HT(L(<<I(1)>>))}, y \in LitH}
+    [] Shape = "inner" ->
+         LET inner == {SN(<<>>)} \cup {SN(<<Lit(n, c)>>) : n \in Atoms, c \in BOOLEAN}
+                      \cup {SN(<<LT(<<Lit(0, FALSE)>>)>>), SN(<<SN(<<Lit(1, TRUE)>>)>>)}
+             el == inner \cup LitH \cup {LT(<<x>>) : x \in inner} \cup {LT(<<x, Lit(1, TRUE)>>) : x \in inner}
+         IN inner \cup {LT(e) : e \in SeqUpTo(el, 2)}
+            \cup {DT(<<11>>, <<x>>) : x \in inner} \cup {DT(<<11, 12>>, <<x, y>>) : x \in inner, y \in LitH \cup inner}
     [] Shape = "dict" -> {d \in {DT(ks, e) : ks \in KeySeqs(Width), e \in SeqUpTo(Leaf0, Width)} : Len(d.k) = Len(d.e)}
     [] Shape = "call" -> {c \in {CT(cl, p, kn, ke) : cl \in DOMAIN Fields, p \in SeqUpTo(Leaf0, 1),
                                    kn \in SeqUpTo(1..3, 2), ke \in SeqUpTo(Leaf0, 2)} :
@@ -38,6 +44,8 @@ Terms ==
 Vals ==
   CASE Shape = "seq" -> Val0 \cup {L(e) : e \in SeqUpTo(Val0, Width)} \cup {T(e) : e \in SeqUpTo(Val0, Width)}
     [] Shape = "nest" -> Val0 \cup {L(e) : e \in SeqUpTo(Val0 \cup SmallL, 2)}
+    [] Shape = "inner" -> Val0 \cup {L(e) : e \in SeqUpTo(Val0 \cup SmallL, 2)} \cup {D(<<11>>, <<x>>) : x \in Val0}
+                          \cup {D(<<12, 11>>, <<x, y>>) : x, y \in Val0}
     [] Shape = "dict" -> Val0 \cup {d \in {D(ks, e) : ks \in KeySeqs(Width), e \in SeqUpTo(Val0, Width)} : Len(d.k) = Len(d.e)}
     [] Shape = "call" -> Val0 \cup UNION {{C(cl, f) : f \in [1..Len(Fields[cl]) -> Val0]} : cl \in DOMAIN Fields}
 
@@ -116,6 +124,10 @@ Emit == (Mode = "emit" /\ step = 1) =>
   LET vs == ValSeq
       sel == {n \in 1..Len(vs) : (n + tid) % Stride = Offset % Stride}
       cases == [n \in sel |-> [v |-> vs[n],
+                               \* what `x == snapshot(..)` answers: without flags the comparison with the old value,
+                               \* with fix/create/update approved the comparison with the merged new value
+                               eqold |-> VEq(Eval(tm), vs[n]),
+                               eqnew |-> VEq(Eval(Assign(tm, vs[n], {"fix", "update"}).term), vs[n]),
                                out |-> [a \in 1..4 |-> LET r == Assign(tm, vs[n], AsSeq[a])
                                                        IN [A |-> CatSeq(AsSeq[a]), term |-> r.term, cats |-> CatSeq(r.cats)]]]]
   IN JsonSerialize(IOEnv.OUT_DIR \o "/term_" \o ToString(tid) \o ".json",
